@@ -983,12 +983,21 @@ class Netlist(NetlistOpsMixin, NetlistMixin, NetlistSimplifyMixin):
         if t < times[0]:
             return self.replace_switches(t)
 
+        # Step through the switching instants up to t.  The switches are
+        # kept in the netlist until the last one has operated; the initial
+        # values for each interval are found from the solution of the
+        # previous interval (whose time origin is the previous
+        # switching instant).
         cct = self
+        t0 = 0
         for m, time in enumerate(times):
             if time > t:
                 break
             before = cct.replace_switches_before(time)
-            cct = cct.replace_switches(time).initialize(before, time)
+            cct = cct.initialize(before, time - t0)
+            t0 = time
+        time = t0
+        cct = cct.replace_switches(time)
 
         if time != 0:
             warn('Note, the time t is relative to %s' % time)
